@@ -268,6 +268,8 @@ def run_sweep(spec, col, deadline_ts):
 
 def run_fuzz(spec, col, deadline_ts):
     deps = os.path.join(VERIF, '.deps')
+    if not os.path.isdir(deps) and os.path.isdir('/verif/.deps'):
+        deps = '/verif/.deps'         # running from a snapshot of the committed files
     env = dict(os.environ)
     env['PYTHONPATH'] = os.pathsep.join([env.get('VERIF_REPO', '/repo'), VERIF, deps])
     probe = subprocess.run([sys.executable, '-c', 'import atheris'], env=env, capture_output=True)
